@@ -138,7 +138,7 @@ _GEN_TRUSTED = ["the Go compiler, gofmt and go vet decide 'compiles' per generat
                 "the reflective executor harness/genexec drives the generated API by method name"]
 CONFIG["C03"] = dict(
     generated=True,
-    level_text="The emitted code's denotation is modelled template by template (Model/GenSem.lean over the bit-level models of C01/C02/C08); kernel-checked theorems (Props/C03.lean) prove for every descriptor, payload and raw value that decoding yields the layout's value and rejection leaves the message unchanged, over that model. That the emitted Go text has this denotation is validated per program: grammar-derived DBCs of the class are generated with the tree's generator, built with the Go compiler, and every message is driven (payload basis, boundary raw values, wrong ID/length/format/remote frames, dispatcher, embedded descriptors) and compared with the model and with a bit-by-bit oracle computed from the DBC layout.",
+    level_text="The emitted code's denotation is modelled template by template (Model/GenSem.lean over the bit-level models of C01/C02/C08); kernel-checked theorems (Props/C03.lean) prove for every descriptor, payload and raw value that decoding yields the layout's value (unsigned, signed, bool), that rejection leaves the message unchanged, and for every integer/bool message in the class layout that the produced frame holds each encoded signal's raw value at its own layout and zeros elsewhere and that a multiplexed signal is encoded/decoded exactly when the multiplexer value equals its selector, over that model. That the emitted Go text has this denotation is validated per program: grammar-derived DBCs of the class are generated with the tree's generator, built with the Go compiler, and every message is driven (payload basis, boundary raw values, wrong ID/length/format/remote frames, dispatcher, embedded descriptors) and compared with the model and with a bit-by-bit oracle computed from the DBC layout.",
     level_note="Proof for the IR semantics; translation validation (programs sampled: coverage.programs) for 'the emitted text has this IR'. " + "; ".join(_GEN_TRUSTED),
     level="proof",
     trivial=r"^(err|not-in-class)$",
@@ -147,7 +147,7 @@ CONFIG["C03"] = dict(
 )
 CONFIG["C10"] = dict(
     generated=True,
-    level_text="State machine model of a generated message (Model/GenSem.lean: New, Reset, raw and physical setters, CopyFrom, UnmarshalFrame, Frame); kernel-checked theorems (Props/C10.lean) prove the raw-range invariant for construction, reset, raw setters and unmarshal for every descriptor and every argument of the accessor type; the physical setter case is partial (finding F1). Seeded operation sequences over the compiled generated packages are compared with the model after every step and judged by the invariant, frame validity, no-leak (frame = spec encoding of the raw values), re-encode identity, CopyFrom without aliasing and Reset.",
+    level_text="State machine model of a generated message (Model/GenSem.lean: New, Reset, raw and physical setters, CopyFrom, UnmarshalFrame, Frame); kernel-checked theorems (Props/C10.lean) prove for every descriptor and every argument: the raw-range invariant for all histories of construction, reset, raw setters, unmarshal and copy-from; no-leak (every encoded field decodes from the frame as stored; zeros elsewhere); re-encode identity (unmarshal of the own frame into any message, then marshal, gives the identical frame) and copy-from frame identity, for integer/bool signals in the class layout; the physical setter case is partial (finding F1), float32 signals are decided per run. Seeded operation sequences over the compiled generated packages are compared with the model after every step and judged by the invariant, frame validity, no-leak (frame = spec encoding of the raw values), re-encode identity, CopyFrom without aliasing and Reset.",
     level_note="Partial proof (physical setters on >= 54-bit scaled signals violate the invariant: known finding F1); translation validation per generated program. " + "; ".join(_GEN_TRUSTED),
     level="proof",
     trivial=r"^(not-in-class)$",
